@@ -80,6 +80,11 @@ def generate(rng, tier):
                 addr = a if first else a + 1
                 if r["cfa"][0] == "r":
                     cfa_v = (sp if r["cfa"][1] == R["sp"] else fp) + r["cfa"][2]
+                    if r["ra"][0] == "o" and rng.chance(1, 6):
+                        # direct recursion through one call site: the caller's return address equals this frame's code address
+                        slot_a = cfa_v + r["ra"][1]
+                        if 0 <= slot_a <= M64 and slot_a % 8 == 0 and slot_a not in memd:
+                            memd[slot_a] = a
                     for rule in (r["fp"], r["ra"]):
                         if rule[0] == "o":
                             want(cfa_v + rule[1])
